@@ -99,11 +99,12 @@ class Spec:
         return self.fn(*a, **k)
 
 
-def spec(fn=None, *, recursive=False, uninterpreted=False, axiom=None):
+def spec(fn=None, *, recursive=False, uninterpreted=False, axiom=None, opaque=False):
     """uninterpreted=True: the SMT reading is an uninterpreted function of the (annotated) argument sorts;
     the Python body is only the *native* reading used in replays (e.g. `return v.source_signature()`)."""
     def deco(f):
         s = Spec(f, recursive, uninterpreted)
+        s.opaque = opaque  # applications are atoms p(args) plus the instance p(args) == body(args)
         s.axiom = axiom   # axiom(params..., result) -> bool: the function's defining property (must determine it)
         SPECS[f.__name__] = s
         return s
